@@ -1,6 +1,7 @@
 (* C05 - Load balancers return only current, healthy members of the cluster.  Only statements; proofs by `exact`. *)
 From Coq Require Import List ZArith NArith Bool.
-From MV Require Import Lib.Interleave Gen.LBTokens Model.LB Model.LBSnapshot Proofs.LB Proofs.LBSnapshot.
+From MV Require Import Lib.Interleave Gen.LBTokens Model.LB Model.LBSnapshot Model.Edf Model.WRR
+  Proofs.LB Proofs.LBSnapshot Proofs.WRR.
 Import ListNotations.
 Open Scope Z_scope.
 
@@ -80,6 +81,39 @@ Theorem c05_healthy_leastconn_unaware_refuted : forall la,
   ~ (forall hs rr x h, o_res (choose la false PLeastConn hs rr x) = Some h -> hhealthy h = true).
 Proof. exact leastconn_unaware_refuted. Qed.
 Print Assumptions c05_healthy_leastconn_unaware_refuted.
+
+(* WRR at the ChooseHost level, scheduler included (composition with C06).  In the theorems above the EDF pick
+   order is arbitrary; here the picks come from the scheduler model of Model/Edf.v: a sequence of ChooseHost calls
+   (each given by the picks it consumed; `calls_ok`: a call returns its first healthy pick or, after `total`
+   unhealthy picks, falls back) whose picks together are a run of the scheduler from any reachable state.
+   For any two HEALTHY hosts the numbers of times the scheduler path returned them obey
+   |n_i/w_i - n_j/w_j| <= 1/w_i + 1/w_j (times w_i*w_j), whatever the unhealthy hosts, skipped picks and
+   fallback calls in between. *)
+Theorem c05_wrr_window : forall hs ws pre s0 calls s1,
+  Forall (fun w => 0 < w) ws ->
+  edf_run (edf_of_weights ws) pre = Some s0 ->
+  edf_run s0 (concat calls) = Some s1 ->
+  calls_ok hs calls = true ->
+  forall i j wi wj hi hj,
+  nth_error ws i = Some wi -> nth_error ws j = Some wj ->
+  nth_error hs i = Some hi -> nth_error hs j = Some hj -> hhealthy hi = true -> hhealthy hj = true ->
+  Z.abs (count_pick i (hit_positions hs calls) * wj - count_pick j (hit_positions hs calls) * wi) <= wi + wj.
+Proof. exact wrr_window. Qed.
+Print Assumptions c05_wrr_window.
+
+(* a call classified CHit is exactly the WRR balancer's ChooseHost of Model/LB.v over those picks *)
+Theorem c05_wrr_hit_is_choose : forall hs c h rr, (2 <= length hs)%nat -> classify hs c = CHit h ->
+  wrr_choose hs true (pick_fn c) rr = (Some h, rr, 0%nat, length c) /\ hhealthy h = true /\
+  get hs (Z.of_nat (last c 0%nat)) = Some h.
+Proof. exact hit_is_wrr_choose. Qed.
+Print Assumptions c05_wrr_hit_is_choose.
+
+Example c05_wrr_window_example :
+  let hs := [mkHost 0 1 true 0 0 0; mkHost 1 2 true 0 0 0; mkHost 2 4 false 0 0 0] in
+  let calls := [[2; 1]; [2; 2; 0]; [1]; [2; 2; 1]; [2; 2; 0]; [1]; [2; 2; 1]]%nat in
+  (exists s1, edf_run (edf_of_weights [1; 2; 4]) (concat calls) = Some s1) /\
+  calls_ok hs calls = true /\ hit_positions hs calls = [1; 0; 1; 1; 0; 1; 1]%nat.
+Proof. cbn zeta. split; [eexists; vm_compute; reflexivity|split; vm_compute; reflexivity]. Qed.
 
 (* non-vacuity: a host set with one healthy host among unhealthy ones; every policy finds it *)
 Example c05_example :
